@@ -1,24 +1,168 @@
-(* Non-vacuity for C03. *)
+(* Non-vacuity and refuted witnesses for C03 (values in Z; true division replaced by Z division, which
+   like Python raises on a zero divisor). *)
 From Coq Require Import List String Bool ZArith.
 From PAFC01 Require Import ModelTree.
-From PAFC03 Require Import Model Proofs.
+From PAFC03 Require Import Model Proofs Proofs2 Proofs3.
 Import ListNotations.
 Local Open Scope string_scope.
 Local Open Scope list_scope.
 
 Definition zbin (o : binop) (a b : Z) : Z :=
   match o with OAdd => (a + b)%Z | OSub => (a - b)%Z | OMul => (a * b)%Z | ODiv => (a / b)%Z end.
-Definition ex : node Z := NModel "G2" ["a"; "b"] [("a", NPrior 0); ("b", NPrior 1)].
-Definition ex_lims : list (limit Z) := [(0, (0%Z, 10%Z)); (1, (0%Z, 10%Z))].
-Definition ex_asserts : list (assertion Z) := [ALt (NPrior 0) (NPrior 1)].
+Definition zbin_ok (o : binop) (a b : Z) : bool := match o with ODiv => negb (Z.eqb b 0) | _ => true end.
+Definition zof_bool (b : bool) : Z := if b then 1%Z else 0%Z.
 
-Example accepted : gate Z zbin Z.ltb Z.leb false ex_lims ex_asserts ex [1%Z; 2%Z] = VOk (IObj "G2" [("a", IV 1%Z); ("b", IV 2%Z)]).
+Notation zrun := (run Z zbin zbin_ok Z.ltb Z.leb zof_bool).
+Notation zgate := (gate Z zbin zbin_ok Z.ltb Z.leb zof_bool).
+Notation zholds := (holds Z zbin zbin_ok Z.ltb Z.leb zof_bool).
+Notation zstatus := (status Z zbin zbin_ok Z.ltb Z.leb zof_bool).
+Notation zchain := (chain Z Z.ltb Z.leb).
+
+Definition g2 : node Z := NModel "G2" ["a"; "b"] [("a", NPrior 0); ("b", NPrior 1)].
+Definition ex : node Z := NColl [("g", g2); ("h", NModel "G2" ["a"; "b"] [("a", NBin OAdd "p" "q" (NPrior 1) (NPrior 2)); ("b", NConst 4%Z)])].
+Definition ex_lims : list (limit Z) := [(0, (0%Z, 10%Z)); (1, (0%Z, 10%Z)); (2, (0%Z, 10%Z))].
+Definition a01 : assertion Z := ALt (NPrior 0) (NPrior 1).
+(* one assertion on the child model g, one on the CompoundPrior h.a, a literal on the root *)
+Definition ex_lv : levels Z := [(["g"], [a01]); (["h"; "a"], [ALe (NPrior 2) (NConst 5%Z)]); ([], [ALit true])].
+
+Example accepted : zrun false ex_lims ex_lv ex [1; 2; 3]%Z =
+  VOk (IColl [("g", IObj "G2" [("a", IV 1%Z); ("b", IV 2%Z)]); ("h", IObj "G2" [("a", IV 5%Z); ("b", IV 4%Z)])]).
 Proof. vm_compute. reflexivity. Qed.
-Example assertion_rejected : gate Z zbin Z.ltb Z.leb false ex_lims ex_asserts ex [2%Z; 2%Z] = VAssert.
+Example child_assertion_rejected : zrun false ex_lims ex_lv ex [2; 2; 3]%Z = VAssert.
 Proof. vm_compute. reflexivity. Qed.
-Example limit_rejected : gate Z zbin Z.ltb Z.leb false ex_lims ex_asserts ex [1%Z; 11%Z] = VLimit.
+Example compound_level_assertion_rejected : zrun false ex_lims ex_lv ex [1; 2; 6]%Z = VAssert.
 Proof. vm_compute. reflexivity. Qed.
-Example ignored : gate Z zbin Z.ltb Z.leb true ex_lims ex_asserts ex [5%Z; 11%Z] = VOk (IObj "G2" [("a", IV 5%Z); ("b", IV 11%Z)]).
+Example limit_rejected : zrun false ex_lims ex_lv ex [1; 11; 3]%Z = VLimit.
 Proof. vm_compute. reflexivity. Qed.
-Example chain_exists : chain_lt Z (ALt (NPrior 0) (NPrior 1)) (NConst 9%Z) = Some (AAnd (ALt (NPrior 0) (NPrior 1)) (ALt (NPrior 1) (NConst 9%Z))).
+Example limit_before_assertion : zrun false ex_lims ex_lv ex [2; 2; 11]%Z = VLimit.
+Proof. vm_compute. reflexivity. Qed.
+Example ignored : zrun true ex_lims ex_lv ex [5; 11; 3]%Z =
+  VOk (IColl [("g", IObj "G2" [("a", IV 5%Z); ("b", IV 11%Z)]); ("h", IObj "G2" [("a", IV 14%Z); ("b", IV 4%Z)])]).
+Proof. vm_compute. reflexivity. Qed.
+Example wrong_length : zrun false ex_lims ex_lv ex [1; 2]%Z = VLength /\ zrun true ex_lims ex_lv ex [1; 2; 3; 4]%Z = VLength.
+Proof. vm_compute. auto. Qed.
+
+(* the guards of the _partial theorems are satisfiable *)
+Example guards_wf : levels_wf Z ex_lv ex.
+Proof. intros e [<-|[<-|[<-|[]]]]; reflexivity. Qed.
+Example guards_ldef : ldef Z zbin zbin_ok Z.ltb Z.leb zof_bool (vec_args Z ex [2; 2; 3]%Z) ex_lv.
+Proof. intros e a [<-|[<-|[<-|[]]]] [<-|[]]; reflexivity. Qed.
+Example guards_constructible : constructible Z zbin zbin_ok Z.ltb Z.leb zof_bool ex [2; 2; 3]%Z.
+Proof. vm_compute. reflexivity. Qed.
+Example guards_covered : covered Z ex = true.
 Proof. reflexivity. Qed.
+Example run_is_gate_instance : zrun false ex_lims ex_lv ex [2; 2; 3]%Z = zgate false ex_lims (flat Z ex_lv) ex [2; 2; 3]%Z.
+Proof. vm_compute. reflexivity. Qed.
+
+(* second branch of C03_rejects_partial, and its hypotheses *)
+Example rejects_second_branch :
+  within Z Z.leb ex_lims (vec_args Z ex [2; 2; 3]%Z) = true /\
+  all_hold Z zbin zbin_ok Z.ltb Z.leb zof_bool (vec_args Z ex [2; 2; 3]%Z) (flat Z ex_lv) = false.
+Proof. vm_compute. auto. Qed.
+Example limits_direct_instance : within Z Z.leb ex_lims (vec_args Z ex [1; 10; 0]%Z) = true /\
+                                 within Z Z.leb ex_lims (vec_args Z ex [1; 11; 0]%Z) = false.
+Proof. vm_compute. auto. Qed.
+Example covers_instance : covers Z ex_lims (ordered_ids Z ex).
+Proof. intros q H. vm_compute in H. destruct H as [<-|[<-|[<-|[]]]]; eexists; eexists; simpl; eauto. Qed.
+Example assertions_direct_instance :
+  all_hold Z zbin zbin_ok Z.ltb Z.leb zof_bool (vec_args Z ex [1; 2; 3]%Z) (flat Z ex_lv) = true.
+Proof. vm_compute. reflexivity. Qed.
+Example verdict_le_boundary : zholds (vec_args Z ex [2; 2; 3]%Z) (ALe (NPrior 0) (NPrior 1)) = Ok true /\
+                              zholds (vec_args Z ex [2; 2; 3]%Z) (ALt (NPrior 0) (NPrior 1)) = Ok false.
+Proof. vm_compute. auto. Qed.
+
+(* operators *)
+Example reflected_constant_left : cmp_nodes Z Z.ltb Z.leb CLt (NConst 5%Z) (NPrior 0) = Some (ALt (NConst 5%Z) (NPrior 0)).
+Proof. reflexivity. Qed.
+Example greater_swaps : cmp_nodes Z Z.ltb Z.leb CGe (NPrior 0) (NPrior 1) = Some (ALe (NPrior 1) (NPrior 0)).
+Proof. reflexivity. Qed.
+Example chain_lt_exists : zchain a01 CLt (NConst 9%Z) = Some (AAnd a01 (ALt (NPrior 1) (NConst 9%Z))).
+Proof. reflexivity. Qed.
+Example chain_gt_exists : zchain a01 CGt (NPrior 2) = Some (AAnd a01 (ALt (NPrior 2) (NPrior 0))).
+Proof. reflexivity. Qed.
+Example chain2_pivot : pivot_of Z a01 CGt = Some (NPrior 0) /\ pivot_of Z a01 CLe = Some (NPrior 1).
+Proof. split; reflexivity. Qed.
+
+(* ---------- REFUTED: the unguarded statements are false of the code ---------- *)
+Definition flat3 : node Z := NModel "G3" ["x"; "y"; "z"] [("x", NPrior 0); ("y", NPrior 1); ("z", NPrior 2)].
+Definition two_links : assertion Z := AAnd a01 (ALt (NPrior 1) (NPrior 2)).       (* (x < y) < z *)
+
+(* three links: ((x < y) < z) < z is built as "truth value of the two-link chain < z"; the vector [3; 2; 5]
+   violates x < y and is accepted (known finding chain-3-links) *)
+Example C03_chain3_refuted :
+  exists (t : assertion Z) (vec : list Z),
+    zchain two_links CLt (NPrior 2) = Some t /\
+    zholds (vec_args Z flat3 vec) two_links = Ok false /\
+    zholds (vec_args Z flat3 vec) t = Ok true /\
+    zrun false ex_lims [([], [t])] flat3 vec = VOk (IObj "G3" [("x", IV 3%Z); ("y", IV 2%Z); ("z", IV 5%Z)]).
+Proof. exists (ALowB true two_links (NPrior 2)), [3; 2; 5]%Z. vm_compute. auto. Qed.
+
+(* the prepared variant (proposed_fixes/C03-chain-further) builds the three inequalities and rejects that vector *)
+Example chain3_fixed_variant :
+  option_map fst (denote_fixed Z Z.ltb Z.leb (RChain (RChain (RCmp CLt (NPrior 0) (NPrior 1)) CLt (NPrior 2)) CLt (NPrior 2)))
+    = Some (AAnd two_links (ALt (NPrior 2) (NPrior 2))) /\
+  zrun false ex_lims [([], [AAnd two_links (ALt (NPrior 2) (NPrior 2))])] flat3 [3; 2; 5]%Z = VAssert.
+Proof. vm_compute. auto. Qed.
+
+(* ... and with a constant as last operand Python raises TypeError when the chain is written *)
+Example C03_chain3_constant_unsupported : zchain two_links CLt (NConst 9%Z) = None.
+Proof. reflexivity. Qed.
+
+(* an operand that is not a parameter of the model: KeyError, not the fit exception (guard ldef) *)
+Example C03_rejects_refuted :
+  exists (lv : levels Z) (vec : list Z),
+    levels_wf Z lv g2 /\ constructible Z zbin zbin_ok Z.ltb Z.leb zof_bool g2 vec /\
+    List.length vec = prior_count Z g2 /\
+    within Z Z.leb ex_lims (vec_args Z g2 vec) = true /\
+    all_hold Z zbin zbin_ok Z.ltb Z.leb zof_bool (vec_args Z g2 vec) (flat Z lv) = false /\
+    zrun false ex_lims lv g2 vec = VError EKey.
+Proof.
+  exists [([], [ALt (NPrior 0) (NPrior 7)])], [1; 2]%Z. split.
+  - intros e [<-|[]]. reflexivity.
+  - vm_compute. auto 6.
+Qed.
+
+(* a division by zero in an assertion: ZeroDivisionError, not the fit exception (guard ldef) *)
+Example C03_rejects_zero_division_refuted :
+  zrun false ex_lims [([], [ALt (NBin ODiv "l" "r" (NPrior 0) (NPrior 1)) (NConst 3%Z)])] g2 [1; 0]%Z = VError EZero.
+Proof. vm_compute. reflexivity. Qed.
+
+(* a division by zero in the model itself: ignoring limits/assertions does not produce an instance (guard constructible) *)
+Example C03_ignore_total_refuted :
+  exists (n : node Z) (vec : list Z), List.length vec = prior_count Z n /\ zrun true ex_lims [] n vec = VError EZero.
+Proof.
+  exists (NModel "G2" ["a"; "b"] [("a", NBin ODiv "l" "r" (NPrior 0) (NPrior 1)); ("b", NPrior 1)]), [1; 0]%Z.
+  vm_compute. auto.
+Qed.
+
+(* an assertion list recorded for a path that is not a level of the model is never looked at (guard levels_wf) *)
+Example C03_levels_flat_refuted :
+  exists (lv : levels Z) (vec : list Z),
+    ldef Z zbin zbin_ok Z.ltb Z.leb zof_bool (vec_args Z g2 vec) lv /\
+    zstatus (vec_args Z g2 vec) true lv g2 = Ok tt /\
+    all_hold Z zbin zbin_ok Z.ltb Z.leb zof_bool (vec_args Z g2 vec) (flat Z lv) = false /\
+    zstatus (vec_args Z g2 vec) false lv g2 = Ok tt.
+Proof.
+  exists [(["nowhere"], [a01])], [2; 1]%Z. split.
+  - intros e a [<-|[]] [<-|[]]. reflexivity.
+  - vm_compute. auto.
+Qed.
+
+(* exceptions inside one check_assertions call escape even when an earlier assertion is already false *)
+Example error_after_false_assertion :
+  zrun false ex_lims [([], [a01; ALt (NPrior 0) (NPrior 7)])] g2 [2; 1]%Z = VError EKey.
+Proof. vm_compute. reflexivity. Qed.
+
+(* a bool stored inside a CompoundAssertion cannot be evaluated: (p < 5) < 9 with both constants *)
+Example and_of_literal_unsupported :
+  zholds (vec_args Z g2 [1; 2]%Z) (AAnd a01 (ALit true)) = Err EAttr.
+Proof. vm_compute. reflexivity. Qed.
+
+(* OUT OF SCOPE, stated for the record: instance_from_path_arguments looks neither at limits nor at the
+   assertions of the root level, but does check every child level *)
+Example paths_route_skips_root_and_limits :
+  run_paths Z zbin zbin_ok Z.ltb Z.leb zof_bool false [([], [a01])] g2 (vec_args Z g2 [30; 20]%Z) =
+    VOk (IObj "G2" [("a", IV 30%Z); ("b", IV 20%Z)]) /\
+  zrun false ex_lims [([], [a01])] g2 [3; 2]%Z = VAssert /\
+  run_paths Z zbin zbin_ok Z.ltb Z.leb zof_bool false [(["g"], [a01])] (NColl [("g", g2)]) (vec_args Z g2 [3; 2]%Z) = VAssert.
+Proof. vm_compute. auto. Qed.
